@@ -2,7 +2,7 @@
     overflow-free domain, non-vacuity examples.  Re-exports the other proof files. *)
 From Coq Require Import ZArith List Bool Arith Lia Permutation.
 Import ListNotations.
-Require Import Nib.Lib.Dec Nib.C10.Model Nib.C10.Spec.
+Require Import Nib.Lib.Dec Nib.C10.Model Nib.C10.Spec Nib.C10.Cfg.
 Require Export Nib.C10.ProofsMedian Nib.C10.ProofsUpdate Nib.C10.ProofsPanic Nib.C10.ProofsIrrelevant Nib.C10.ProofsHist.
 Local Open Scope Z_scope.
 Local Arguments Z.mul : simpl never.
@@ -219,3 +219,20 @@ Example ex_expiry_nonvacuous :
   run p_ex [mkRate 2 one 0] 8 [mkBlockIn [] 100 0 1000000 [2%nat] []; mkBlockIn [] 100 0 1000000 [2%nat] []] = Some [mkRate 2 one 0] /\
   run p_ex [mkRate 2 one 0] 8 [mkBlockIn [] 100 0 1000000 [2%nat] []; mkBlockIn [] 100 0 1000000 [2%nat] []; mkBlockIn [] 100 0 1000000 [2%nat] []] = Some [].
 Proof. split; [unfold no_wrap; simpl; lia|]. split; vm_compute; reflexivity. Qed.
+
+(* ---------------------------------------------------------------- the extracted code configuration *)
+
+Lemma cfg_ok_variant c : cfg_ok c = true -> variant_of c = Some (true, true, true) /\ validate_ok c = true.
+Proof.
+  unfold cfg_ok. destruct (variant_of c) as [[[[|] [|]] [|]]|]; try discriminate. intro H. split; [reflexivity | exact H].
+Qed.
+
+(** for a configuration accepted by [cfg_ok] the model denoted by it is the one all theorems are about *)
+Lemma end_block_cfg_ok c p st h : cfg_ok c = true -> end_block_cfg c p st h = Some (end_block true p st h).
+Proof. intro H. unfold end_block_cfg. destruct (cfg_ok_variant c H) as [-> _]. reflexivity. Qed.
+
+Theorem holds_for_cfg c : cfg_ok c = true ->
+  forall p st h, wf st -> exists o, end_block_cfg c p st h = Some o /\ P p st h o.
+Proof.
+  intros Hc p st h Hw. exists (end_block true p st h). split; [apply end_block_cfg_ok; exact Hc | apply end_block_holds; exact Hw].
+Qed.
